@@ -497,6 +497,12 @@ impl<'a> Interp<'a> {
                 true
             }
             C::ForEach { array, item, index, body } => match self.eval(array) {
+                // W3C 4.6: an 'item' that is no legal variable name terminates the foreach and the
+                // enclosing block with error.execution
+                Ok(V::Arr(_)) if item == crate::contentgen::ILLEGAL_ITEM && self.m.dm == DM::Ecma => {
+                    self.error_execution();
+                    false
+                }
                 Ok(V::Arr(items)) => {
                     for (i, it) in items.iter().enumerate() {
                         self.store.insert(item.clone(), it.clone());
